@@ -229,6 +229,16 @@ def _work(item):
             n += 1
             for sig, msg in problems:
                 out.append((sig, msg, {"cfg": cfg, "carrier": name, "value": repr(v), "vtype": type(v).__name__}))
+    # the same command once more, with an ordinary value, after it was refused for a non-finite one on the same builder
+    for name, letter, domain, call in CARRIERS:
+        if name not in REPEATABLE:
+            continue
+        for bad in nonfinite[:3]:
+            for v in (1.5, 40):
+                problems, raw, exc = check_value(cfg, name, letter, domain, call, v, pre=(cfg, bad))
+                n += 1
+                for sig, msg in problems:
+                    out.append((sig + ":after-refused-non-finite", msg + f" (after {name}({bad!r}) was refused)", {"cfg": cfg, "carrier": name, "value": repr(v), "vtype": type(v).__name__, "pre_cfg": cfg, "warm": repr(bad)}))
     if plain:
         for name, call in PLAIN:
             problems = []
@@ -364,6 +374,6 @@ def replay(body):
     finite = bool(np.isfinite(float(v)))
     pre = None
     if "pre_cfg" in rp:
-        pre = (rp["pre_cfg"], eval(rp["warm"], {"np": np}))
+        pre = (rp["pre_cfg"], eval(rp["warm"], {"np": np, "nan": float("nan"), "inf": float("inf")}))
     problems, raw, exc = check_value(cfg, car[0], car[1], car[2], car[3], v, finite=finite, pre=pre)
     return {"output": raw, "exception": repr(exc), "violations": problems}
